@@ -8,7 +8,7 @@ RUNG1 = ("Machine-checked Lean 4 theorems (kernel-checked by `lake build`, axiom
          "executable model of the code, tied to /repo's current source on every run by a correspondence check (the real crate, "
          "rebuilt with the cfg(daachorse_verif) hooks, and the model are run on the same generated inputs and every difference is reported) "
          "and by a translator that regenerates the model's constants from the source. ")
-R2 = 'Rung 2 (proved end to end in the model of the builder, Proofs/Rung2.lean): for EVERY valid collection and every num_free_blocks, buildDA = ok da implies the result below, through kernel-checked theorems for insertion, fail links/outputs ((F),(G1),(G3) for the leftmost kinds), the ring-buffer helper, BASE uniqueness and CHECK sanitising of the byte-wise layout (incl. the pigeonhole for full blocks) and the char-wise layout; the model builder is tied to the code by K-build (byte-identical tables, evicted blocks included). Not proved: that the post-insertion phases never panic on valid input (totality). '
+R2 = 'Rung 2 (proved end to end in the model of the builder, Proofs/Rung2.lean): for EVERY valid collection and every num_free_blocks, buildDA = ok da implies the result below, through kernel-checked theorems for insertion, fail links/outputs ((F),(G1),(G3) for the leftmost kinds), the ring-buffer helper, BASE uniqueness and CHECK sanitising of the byte-wise layout (incl. the pigeonhole for full blocks) and the char-wise layout; the model builder is tied to the code by K-build (byte-identical tables, evicted blocks included). Totality (the model builder never panics, returns Ok or a documented error kind) is proved too. What is not proved is anything about the Rust code itself: the model is tied to it by the correspondence suites only. '
 TEXT = {
  'C01': RUNG1 + R2 + "Theorem: any tables satisfying the decidable invariants tableInv+sizeInv for a valid pattern list return, for EVERY haystack, exactly specOverlapping (= exactly the occurrences, no repeats, end-ascending then longest-first: proved of the spec). Byte-wise at byte level; char-wise at byte level on valid UTF-8 via the self-synchronisation proof (Props/C08). The invariants are evaluated by compiled Lean on the tables the implementation actually built, for every generated automaton (all nodes x all 256 labels / all mapped codes + unmapped), every num_free_blocks, both entry points. Additionally (Rung 1) the invariants are evaluated on the implementation's own tables, so for every automaton a run builds the all-haystacks conclusion holds without any model of the builder.",
  'C02': RUNG1 + R2 + "Theorem: tables satisfying tableInv+sizeInv answer find_iter on every haystack exactly like specFind, which is proved to be the unique sequence of the property (FindSpec: earliest end, then longest, resume at that end; non-overlapping, increasing, true occurrences). Invariants additionally evaluated on every built automaton (Rung 1, no builder model involved).",
@@ -19,7 +19,7 @@ TEXT = {
  'C07': RUNG1 + "Theorems: on tables satisfying boundsInv (evaluated over ALL elements of every dumped table) no search method can fault with an out-of-range states/outputs access on any haystack; XOR child indices stay in range; the hand-written UTF-8 decoder on valid UTF-8 never reads past the end nor builds an invalid char and inverts the reference encoder; the leftmost iterator's get_unchecked(pos..) is always at a boundary. Residue: real memory behaviour of compiled code - covered by running every case with std's unsafe-precondition checks armed (abort = failing input) and by the scan of unchecked sites.",
  'C08': RUNG1 + "Theorems: char-wise and byte-wise tables satisfying the invariants for the same UTF-8 patterns both equal the same byte-level specification on every valid UTF-8 haystack (overlapping, find, no-suffix, leftmost-longest), via a proof that the model decoder inverts UTF-8 encoding and the self-synchronisation lemma (occurrences start/end on character boundaries; nothing starts or ends inside a character); unmapped characters go to the root without table access. Pairs of B/C automata from identical inputs are compared directly on every run.",
  'C09': RUNG1 + "Theorem (full strength in the model): for EVERY well-formed automaton value, both variants, all kinds, every lawful fixed-width value type and arbitrary trailing bytes, deserialize(serialize a ++ rest) = (a, rest); re-serialisation reproduces the bytes; the kind byte tables and the width table are generated from the source and the kind round trip is re-proved against them. Tie K-serial: byte-identical images and restored tables for all value types incl. Empty, 128-bit and a user-defined type.",
- 'C10': RUNG1 + "Theorems for ALL collections: the insertion phase (where all validation happens, incl. the leftmost-first early-return path and the D2 repair) succeeds iff the collection is valid; whole-pipeline model: success => valid, invalid => invalidArgument/duplicatePattern naming a present defect, never a panic. Not proved: the fail/output/layout phases never fail on valid input within the size limits (build_total) - covered per instance by K-build (outcome incl. panic and error kind compared on every generated collection, invalid ones at every position).",
+ 'C10': RUNG1 + "Theorems for ALL collections: the insertion phase (where all validation happens, incl. the leftmost-first early-return path and the D2 repair) succeeds iff the collection is valid; whole-pipeline model: success => valid, invalid => invalidArgument/duplicatePattern naming a present defect, never a panic. build_total (never a panic, for every collection, kind, variant, num_free_blocks) and build_ok_iff within the size limits are proved on the vacant-list invariant of the ring-buffer helper. Tie: K-build compares the outcome (Ok / error kind / panic) and the tables with the implementation on every generated collection, invalid ones at every position.",
  'C11': RUNG1 + "Corollary of the Rung-1 theorems: any two tables satisfying the invariants for the same patterns give identical results for every method on every haystack; in the model num_states does not depend on num_free_blocks. Every multi-block pattern set is built with num_free_blocks in {1,2,3,4,16,64} (blocks evicted and closed), invariants evaluated on each, results and num_states compared across the group.",
  'C12': RUNG1 + "Theorems for arbitrary tables (no invariant): for the three standard-kind iterators of both variants every returned match ends exactly at the number of bytes pulled so far, pulled counts are monotone, each item consumes a non-empty prefix of the remaining source once, and exhaustion pulls exactly |h| bytes. Tie: a counting source iterator records the pulled count after EVERY next() and is compared with the model; from_iter results compared with slice results.",
  'C13': RUNG1 + "Theorems: on tables satisfying tableInv+sizeInv a standard scan of n bytes takes at most 2n transitions (potential argument; char-wise 2 per character), never runs out of fuel; fail links lead to strictly shorter nodes and reach the root; output parents point strictly backwards (boundsInv). Termination of the leftmost kinds follows from Props/C03 (the iterator returns ok). Tie K-steps: the implementation's own loop counter (hook) equals the model's count on every scan; watchdog for hangs.",
